@@ -228,9 +228,23 @@ void pfx_table_init(struct pfx_table *t, pfx_update_fp fp)
 			tm_pfx1.used[i] = false;
 }
 
+static void tm_check_lengths(const struct pfx_record *r)
+{
+#ifdef ASSERT_C04
+	unsigned int width = r->prefix.ver == LRTR_IPV4 ? 32 : 128;
+
+	VASSERT(r->min_len <= width && r->max_len <= width,
+		"C04: a prefix record with a length beyond the address width never reaches the prefix table");
+#else
+	(void)r;
+#endif
+}
+
 int pfx_table_add(struct pfx_table *t, const struct pfx_record *r)
 {
 	int id = tm_pid(t);
+
+	tm_check_lengths(r);
 	struct tm_pfx_tab *tab = TM_PFX(id);
 	struct tm_prec m = tm_p(r);
 
@@ -257,6 +271,8 @@ int pfx_table_add(struct pfx_table *t, const struct pfx_record *r)
 int pfx_table_remove(struct pfx_table *t, const struct pfx_record *r)
 {
 	int id = tm_pid(t);
+
+	tm_check_lengths(r);
 	struct tm_pfx_tab *tab = TM_PFX(id);
 	struct tm_prec m = tm_p(r);
 
